@@ -9,7 +9,8 @@ from .. import outputcrawl as oc
 THEOREMS = ["Output.url_resolves_iff", "Output.own_page_exists", "Output.member_anchor_exists", "Output.links_resolve",
             "Output.links_resolve_partial", "Output.links_resolve_counterexample_superseded",
             "Output.links_resolve_counterexample_hidden", "Output.links_resolve_counterexample_context",
-            "Output.shorten_resolves"]
+            "Output.inhierarchy_counterexample", "Output.shorten_resolves", "Output.superseded_not_reachable",
+            "Output.inside_superseded_not_reachable", "Output.mem_reached_iff", "Output.origin"]
 RULE = ("hand-written scenario projects for every situation the quantifier names (inheritance, inherited docstrings, "
         "re-exports, duplicates 'C 0', hidden and private objects, nested classes, several roots) plus random projects "
         "of harness.gen.project.Gen with planted L{...} cross-references, each under a random list of --privacy rules "
